@@ -428,6 +428,15 @@ def text_map(o):
     out = []
     for lang, lm in o.items():
         _tstr(lang, "language tag")
+        # a key written as a JSON string ('"419"') denotes that string (the tool decodes map keys as JSON where it can,
+        # which is how a tag that reads like a number or a literal is written unambiguously)
+        if len(lang) >= 2 and lang[0] == '"' and lang[-1] == '"':
+            try:
+                dec = json.loads(lang)
+                if isinstance(dec, str):
+                    lang = dec
+            except ValueError:
+                pass
         if not isinstance(lm, dict):
             raise RefError("language map: dict expected")
         entries = []
